@@ -55,6 +55,10 @@ def streams(tier, rng, P, only=None, cases=None):
             cs.append(dict(req="run " + hx(src), src=src, show=src, key="src%d" % i, expect_tb=tb))
         for j, src in enumerate(mml.sample_sources()):
             cs.append(dict(req="run " + hx(src), src=src, show=src[:200], key="sample%d" % j, expect_tb=None))
+        # meta texts longer than the 127-byte cap made of multi-byte characters, at every alignment of the cut (compilation returns bytes)
+        for j in range(0, 4):
+            for src in ["TIMEBASE(480) TrackName={%s%s} TR(2) cde" % ("x" * j, "桜" * 60), "Copyright={\"%s%s\"} c" % ("y" * (120 + j), "あいう"), "%sText{%s%s} c" % ("TR(3) " if j % 2 else "", "z" * j, "é𝄞漢" * 20)]:
+                cs.append(dict(req="run " + hx(src), src=src, show=src[:120], key="longmeta%d-%d" % (j, len(src)), expect_tb=None))
         # chunk bodies longer than 16 bits can say (every byte of the 32-bit length field matters)
         for j, src in enumerate(["l16 [9 [1000 c]]", "l16 [40 [1000 c]] TR=2 c"] + (["l16 [300 [1000 c]]", "l16 [9 [1000 c]] TR(3) l16 [33 [1000 d]]"] if big else [])):
             cs.append(dict(req="run " + hx(src), src=src, show=src, key="bigchunk%d" % j, expect_tb=96))
